@@ -40,6 +40,11 @@ CHECKS = {
    technique='bounded exhaustive exploration (CrossHair path enumeration, z3 bookkeeping) of nodes.reduplicate on all DAGs obtained from forests up to the bound by re-using up to two earlier objects',
    text='For every forest up to the bound and every way of inserting one or two earlier objects (leaf, subtree, empty list) at later non-nested positions: ids pairwise distinct afterwards, tokens unchanged, input not modified, already-unique nodes keep their identity, first occurrence of a shared node keeps its id. The choices are enumerated path by path - a bounded exhaustive claim.',
    note='Trusted: CrossHair path bookkeeping. Outside: larger forests, more than two shared insertions; the call sites in the strategies are asserted in the C05 harness.'),
+ 'C14': dict(
+   category='model_checking', design_ref='DESIGN.md 5 C14',
+   technique='bounded symbolic execution (CrossHair/z3): one step of the option state machine from an arbitrary namespace state (inductive), mutator lookup and pass construction under symbolic enable flags, theory auto-detection over all declaration/user-setting patterns; real argparse end-to-end by enumeration',
+   text='Each of the 139 option strings is applied by its real Action to a namespace whose mutator flags are symbolic: written attributes equal the documented constants, every other attribute is the identical object (so sequences of any length follow by induction). get_mutators returns an instance of exactly the named class iff its flag holds; hierarchical last pass = enabled set, all passes within it, ddmin schedules every enabled mutator except BinaryReduction; auto-detection disables a theory group only if it was not set by the user and nothing of the theory is declared (all 32x32 patterns x 3 declaration forms), and never enables anything.',
+   note='Trusted: CrossHair/z3; registries mutators_<group>.get_mutators() as the naming source; argparse left-to-right action order (validated end to end for all single options and ordered pairs - concrete enumeration, auxiliary). Values of user-set group options are concrete in the detect harness.'),
  'C16': dict(
    category='model_checking', design_ref='DESIGN.md 5 C16',
    technique='bounded symbolic execution (CrossHair/z3) of smtlib.collect_information / get_sort / get_bv_width on generated well-sorted terms with symbolic numerals (widths, indices, extension amounts, fp sizes); generator typing validated with z3; default constants type-checked with z3',
